@@ -335,6 +335,10 @@ pub fn parse_lct_header(data: &[u8]) -> Result<LCTHeader> {
      *  +-+-+-+-+-+-+-+-+-+-+-+-+-+-+-+-+-+-+-+-+-+-+-+-+-+-+-+-+-+-+-+-+
      */
 
+    if data.len() < 4 {
+        return Err(FluteError::new("Fail to read lct header size"));
+    }
+
     let len = data.get(2).map_or_else(
         || Err(FluteError::new("Fail to read lct header size")),
         |&v| Ok((v as usize) << 2),
